@@ -978,8 +978,7 @@ fn check_reader_split(c: &RCase) -> Verdict {
         Err(e) => return Verdict::fail(format!("differential.load_error|fmt={fmt}"), format!("content alone loads, content+EOF+SAUCE does not: {e}")),
     };
     if let Some((size, d)) = picture_diff(&picture(&loaded), &plain_pic) {
-        let width_class = ["", "|width=0", "|width>1000"][c.width_sel.min(2) as usize];
-        return Verdict::fail(format!("differential.{}|fmt={fmt}|{lines_class}{width_class}", if size { "size" } else { "cells" }), format!("TInfo1={w} TInfo2={lines}: {d}"));
+        return Verdict::fail(format!("differential.{}|fmt={fmt}", if size { "size" } else { "cells" }), format!("record TInfo1={w} TInfo2={lines} ({lines_class}), {n} comment lines, content tail kind {}: {d}", c.tail));
     }
     let marker = c.tail != 0;
     let tail_class = ["none", "SAUCE", "COMNT", "EOF", "SAUCE00", "record", "comment_block", "trailer", "EOFEOF", "record-1"][c.tail.min(9) as usize];
@@ -1054,7 +1053,7 @@ fn check_degenerate(c: &DCase) -> Verdict {
         Err(e) => return Verdict::fail(format!("differential.load_error|fmt={fmt}"), e.to_string()),
     };
     if let Some((size, d)) = picture_diff(&picture(&loaded), &picture(&plain)) {
-        return Verdict::fail(format!("differential.{}|fmt={fmt}|lines=0", if size { "size" } else { "cells" }), d);
+        return Verdict::fail(format!("differential.{}|fmt={fmt}", if size { "size" } else { "cells" }), d);
     }
     Verdict::pass(n > 0 || c.content.is_empty(), format!("{fmt}|{}|content={}", if c.eof { "eof" } else { "no_eof" }, c.content.len()))
 }
@@ -1065,48 +1064,10 @@ fn main() {
     // the harness builds SauceStrings through the engine's only constructor (String -> CP437); that needs the table to be injective
     assert_eq!(rev_table().len(), 256, "CP437_TO_UNICODE is not injective");
 
-    if std::env::var("C11_PROFILE").is_ok() {
-        use icyv::proptest::strategy::ValueTree;
-        use icyv::proptest::test_runner::TestRunner;
-        let mut runner = TestRunner::deterministic();
-        let strat = wcases(false);
-        let mut gen_t = std::time::Duration::ZERO;
-        let mut per: std::collections::BTreeMap<String, (u32, std::time::Duration)> = Default::default();
-        for _ in 0..4000 {
-            let t = std::time::Instant::now();
-            let c = strat.new_tree(&mut runner).unwrap().current();
-            gen_t += t.elapsed();
-            let t = std::time::Instant::now();
-            let _ = check_meta(&c);
-            let e = per.entry(wclass(&c)).or_default();
-            e.0 += 1;
-            e.1 += t.elapsed();
-        }
-        println!("gen total {:?}", gen_t);
-        for fmt in [ANS, ASC, XB] {
-            let c = WCase { fmt, meta: Meta { title: Bytes(vec![]), author: Bytes(vec![]), group: Bytes(vec![]), comments: vec![], ice: false, letter_spacing: false, aspect_ratio: false, font: Bytes(vec![]), width: 80 }, height: 1, cells: vec![] };
-            let t = std::time::Instant::now();
-            for _ in 0..200 { let _ = build(&c, true); }
-            let t_build = t.elapsed() / 200;
-            let buf = build(&c, true);
-            let t = std::time::Instant::now();
-            for _ in 0..200 { let _ = buf.to_bytes(ext(fmt), &save_opts(true)).unwrap(); }
-            let t_save = t.elapsed() / 200;
-            let bytes = buf.to_bytes(ext(fmt), &save_opts(true)).unwrap();
-            let t = std::time::Instant::now();
-            for _ in 0..200 { let _ = Buffer::from_bytes(&file_name(fmt), false, &bytes).unwrap(); }
-            let t_load = t.elapsed() / 200;
-            println!("{} build {:?} save {:?} load {:?}", ext(fmt), t_build, t_save, t_load);
-        }
-        for (k, (n, t)) in per {
-            println!("{k:20} n={n:5} avg={:?}", t / n);
-        }
-        return;
-    }
     let mut eng = Engine::new("C11");
     eng.rule(
         "meta_roundtrip/writer_split: documents of 1..=3 rows, width from {80,160,1..=1000,edges}, title/author/group = CP437 bytes 1..=255 of length 0..=35/20/20 (forced maximal and \
-         maximal-1 lengths) plus trailing blanks/NULs, 0..=255 comment lines (forced 250..=255) of 0..=64 bytes without interior NUL, ice/letter-spacing/aspect-ratio, font 0 renamed to a SAUCE \
+         maximal-1 lengths) plus trailing blanks/NULs, 0..=255 comment lines (forced 250..=255; blocks longer than 3 lines repeat a generated pattern of 1..=4 lines) of 0..=64 bytes without interior NUL, ice/letter-spacing/aspect-ratio, font 0 renamed to a SAUCE \
          font name or arbitrary <=22 CP437 bytes, saved by each SAUCE writer (ans asc avt pcb bin xb tnd adf idf icy) and loaded with Buffer::from_bytes; writer_split is biased to the loader defaults \
          so that the differential clause applies. reader_split: generated ans/asc/pcb/avt/bin content (text, line breaks, colour codes, high bytes) ending in SAUCE, COMNT, EOF, SAUCE00, whole fake records, \
          fake comment blocks, whole fake trailers, or writer-made xb/tnd/adf/idf content, followed by a trailer from the harness' own SAUCE rev.5 encoder (default width / 0 / >1000, ice off, font empty or IBM VGA, \
@@ -1119,9 +1080,9 @@ fn main() {
     eng.assume("'picture' = buffer size and, per cell, character, colour indices, attribute bits, font page and the palette RGB of both colours");
     eng.assume("content that by itself ends in a well-formed record is ambiguous for Buffer::from_bytes: its reference picture is taken from the format loader called without SAUCE");
 
-    eng.generated_with_class(PartCfg::new("meta_roundtrip", 60_000, 1_500_000), || wcases(false), check_meta, |c: &WCase| format!("fmt={}", ext(c.fmt)));
-    eng.generated_with_class(PartCfg::new("writer_split", 30_000, 700_000), || wcases(true), check_writer_split, |c: &WCase| format!("fmt={}", ext(c.fmt)));
-    eng.generated_with_class(PartCfg::new("reader_split", 30_000, 800_000), rcases, check_reader_split, |c: &RCase| format!("fmt={}", ext(c.fmt)));
+    eng.generated_with_class(PartCfg::new("meta_roundtrip", 240_000, 4_000_000), || wcases(false), check_meta, |c: &WCase| format!("fmt={}", ext(c.fmt)));
+    eng.generated_with_class(PartCfg::new("writer_split", 100_000, 1_600_000), || wcases(true), check_writer_split, |c: &WCase| format!("fmt={}", ext(c.fmt)));
+    eng.generated_with_class(PartCfg::new("reader_split", 160_000, 2_400_000), rcases, check_reader_split, |c: &RCase| format!("fmt={}", ext(c.fmt)));
     eng.enumerated(PartCfg::new("degenerate", 0, 0).exhaustive(true), 2048, dcase, check_degenerate);
     eng.run();
 }
